@@ -585,6 +585,47 @@ func runC12(c *core.Ctx, o Options) {
 		}
 		okE := r == `strings.ReplaceAll(filepath.Base(filepath.Clean(outputDirPath)), "-", "_")` || r == `strings.ReplaceAll(filepath.Base(outputDirPath), "-", "_")`
 		c.Check(okE, "e", "Execute", "the package name is the base name of the output directory", ex.Pos(), r, "the package name is derived as "+r+": it depends on where the output directory is located, not only on its name")
+		// (e) … and the files go to the directory that was asked for: the directory part of every path handed to write reaches it
+		// without a case or character transformation (lower-casing the joined path "works" for ./fix44 and fails, or writes
+		// elsewhere, under /home/Alice/…)
+		if wf := c.Func("generator", "Generator.write"); wf != nil {
+			nW := 0
+			for _, fn := range pkgFuncs(gen) {
+				an.AllInstrs(fn, func(in ssa.Instruction) {
+					call, ok := in.(*ssa.Call)
+					if !ok || an.StaticCallee(&call.Call) != wf || len(call.Call.Args) < 2 {
+						return
+					}
+					nW++
+					sl := newBackSlice(gen)
+					sl.follow(call.Call.Args[1])
+					bad := ""
+					for _, t := range sl.calls {
+						cal := an.StaticCallee(&t.Call)
+						if cal == nil || cal.Pkg == nil || cal.Pkg.Pkg.Path() != "strings" {
+							continue
+						}
+						// what the transformation is applied to
+						inner := newBackSlice(gen)
+						for _, a := range t.Call.Args {
+							inner.follow(a)
+						}
+						for _, u := range inner.calls {
+							if uc := an.StaticCallee(&u.Call); uc != nil && uc.Pkg != nil && uc.Pkg.Pkg.Path() == "path/filepath" {
+								bad = "strings." + cal.Name() + " is applied to a value built by filepath." + uc.Name()
+							}
+						}
+						for _, prm := range inner.params {
+							if prm.Parent() == ex {
+								bad = "strings." + cal.Name() + " is applied to a value derived from Execute's " + prm.Name()
+							}
+						}
+					}
+					c.Check(bad == "", "e", an.NameOf(fn), "the output directory reaches write untransformed", call.Pos(), "only the file name is lower-cased", bad+": the files land in (or are looked for in) a directory other than the one given when its path contains characters the transformation changes")
+				})
+			}
+			c.Check(nW >= 1, "e", "write", "write call sites found", token.NoPos, fmt.Sprint(nW), "no call of Generator.write found")
+		}
 		// (f) prepare's error is returned before the first write
 		var prep *ssa.Call
 		var writes []*ssa.Call
@@ -671,7 +712,7 @@ func runC12(c *core.Ctx, o Options) {
 	}
 	// ---- (g) type table
 	checkTypeTable(c, "g", gpkg.Types)
-	c.RuleMin = map[string]int{"a": 15, "b": 3, "c": 3, "c′": 3, "c″": 3, "d": 7, "e": 1, "f": 3, "g": 6, "h": 121}
+	c.RuleMin = map[string]int{"a": 15, "b": 3, "c": 3, "c′": 3, "c″": 3, "d": 7, "e": 3, "f": 3, "g": 6, "h": 121}
 	c.MinObl = 150
 }
 
@@ -1037,3 +1078,113 @@ func checkSchemaReadOnly(c *core.Ctx, rule string, gen *ssa.Package) {
 }
 
 func strconvQuote(s string) string { return fmt.Sprintf("%q", s) }
+
+
+// backSlice collects what a value is computed from, inside one package: calls and parameters reached by walking operands
+// backwards through arithmetic, conversions, phis, standard-library calls (their arguments), module calls (their returned
+// values), parameters (the arguments at every static call site in the package) and field loads (every value stored to that field
+// in the package).
+type backSlice struct {
+	pkg    *ssa.Package
+	seen   map[ssa.Value]bool
+	calls  []*ssa.Call
+	params []*ssa.Parameter
+	steps  int
+}
+
+func newBackSlice(pkg *ssa.Package) *backSlice {
+	return &backSlice{pkg: pkg, seen: map[ssa.Value]bool{}}
+}
+
+func (b *backSlice) follow(v ssa.Value) {
+	if v == nil || b.seen[v] || b.steps > 4000 {
+		return
+	}
+	b.seen[v] = true
+	b.steps++
+	switch x := v.(type) {
+	case *ssa.Const, *ssa.Global, *ssa.Function, *ssa.Builtin:
+	case *ssa.Parameter:
+		b.params = append(b.params, x)
+		fn := x.Parent()
+		idx := -1
+		for i, p := range fn.Params {
+			if p == x {
+				idx = i
+			}
+		}
+		for _, caller := range pkgFuncs(b.pkg) {
+			an.AllInstrs(caller, func(in ssa.Instruction) {
+				if cc := an.CallOf(in); cc != nil && an.StaticCallee(cc) == fn && idx >= 0 && idx < len(cc.Args) {
+					b.follow(cc.Args[idx])
+				}
+			})
+		}
+	case *ssa.Call:
+		b.calls = append(b.calls, x)
+		cal := an.StaticCallee(&x.Call)
+		if cal != nil && cal.Pkg == b.pkg && len(cal.Blocks) > 0 {
+			an.AllInstrs(cal, func(in ssa.Instruction) {
+				if r, ok := in.(*ssa.Return); ok {
+					for _, rv := range r.Results {
+						b.follow(rv)
+					}
+				}
+			})
+			return
+		}
+		for _, a := range x.Call.Args {
+			b.follow(a)
+		}
+		if x.Call.IsInvoke() {
+			b.follow(x.Call.Value)
+		}
+	case *ssa.Extract:
+		if call, ok := x.Tuple.(*ssa.Call); ok {
+			if cal := an.StaticCallee(&call.Call); cal != nil && cal.Pkg == b.pkg && len(cal.Blocks) > 0 {
+				b.calls = append(b.calls, call)
+				an.AllInstrs(cal, func(in ssa.Instruction) {
+					if r, ok := in.(*ssa.Return); ok && x.Index < len(r.Results) {
+						b.follow(r.Results[x.Index])
+					}
+				})
+				return
+			}
+		}
+		b.follow(x.Tuple)
+	case *ssa.UnOp:
+		if x.Op == token.MUL {
+			switch a := x.X.(type) {
+			case *ssa.FieldAddr:
+				f := an.FieldOf(a)
+				for _, fn := range pkgFuncs(b.pkg) {
+					an.AllInstrs(fn, func(in ssa.Instruction) {
+						if st, ok := in.(*ssa.Store); ok {
+							if fa, ok := st.Addr.(*ssa.FieldAddr); ok && an.FieldOf(fa) == f {
+								b.follow(st.Val)
+							}
+						}
+					})
+				}
+				return
+			case *ssa.Alloc:
+				for _, sv := range an.CellStores(a) {
+					b.follow(sv)
+				}
+				return
+			case *ssa.IndexAddr:
+				b.follow(a.X)
+				return
+			}
+		}
+		b.follow(x.X)
+	default:
+		if in, ok := v.(ssa.Instruction); ok {
+			for _, op := range in.Operands(nil) {
+				if op != nil && *op != nil {
+					b.follow(*op)
+				}
+			}
+		}
+	}
+}
